@@ -1,5 +1,5 @@
 (** Proofs about Model/Access.v (property C12). *)
-From Coq Require Import String List NArith Bool Lia.
+From Coq Require Import String List NArith Bool Lia PeanoNat.
 From Fabio Require Import Lib.Outcome Lib.Bytes Model.Access.
 Import ListNotations.
 Local Open Scope N_scope.
@@ -53,20 +53,65 @@ Theorem deny_only_inside r ip :
 Proof. intros Ha D. rewrite deny_by_ip_deny in D by exact Ha. now apply existsb_exists in D. Qed.
 
 (* ================= AccessDeniedHTTP ================= *)
+Lemma split_byte_nonempty s sep : split_byte s sep <> [].
+Proof.
+  induction s as [|x s IH]; cbn [split_byte]; [discriminate|].
+  destruct (x =? sep); [discriminate|]. destruct (split_byte s sep); discriminate.
+Qed.
+
+(* strings.Split distributes over a separator: Split(a+sep+b) = Split(a) ++ Split(b) *)
+Lemma split_byte_app_sep a b sep :
+  split_byte (a ++ sep :: b) sep = split_byte a sep ++ split_byte b sep.
+Proof.
+  induction a as [|x a IH]; cbn [app split_byte].
+  - now rewrite N.eqb_refl.
+  - destruct (x =? sep); [now rewrite IH|]. rewrite IH.
+    destruct (split_byte a sep) as [|w ws] eqn:E; [now apply split_byte_nonempty in E|]. reflexivity.
+Qed.
+
+(* every element of every field value is an element of the comma-join of all values *)
+Lemma in_split_join xff v x :
+  In v xff -> In x (split_byte v 44) -> In x (split_byte (join xff [44]) 44).
+Proof.
+  induction xff as [|w rest IH]; [contradiction|]. intros Hv Hx.
+  destruct rest as [|w2 rest'].
+  - destruct Hv as [->|[]]. exact Hx.
+  - change (join (w :: w2 :: rest') [44]) with (w ++ 44 :: join (w2 :: rest') [44]).
+    rewrite split_byte_app_sep. apply in_or_app.
+    destruct Hv as [->|Hv]; [now left | right; now apply IH].
+Qed.
+
+Lemma strip_zone_nil : strip_zone [] = [].
+Proof. reflexivity. Qed.
+
+(* "addr%zone" is read as "addr" *)
+Lemma strip_zone_zone a z : ~ In 37 a -> strip_zone (a ++ 37 :: z) = a.
+Proof.
+  intros H. unfold strip_zone.
+  assert (E : index_byte (a ++ 37 :: z) 37 = Some (List.length a)).
+  { induction a as [|x a IH]; cbn [app index_byte List.length].
+    - now rewrite N.eqb_refl.
+    - destruct (x =? 37) eqn:Ex; [apply N.eqb_eq in Ex; subst; exfalso; apply H; now left|].
+      rewrite IH; [reflexivity | intros Hin; apply H; now right]. }
+  rewrite E. rewrite firstn_app, Nat.sub_diag, firstn_all. cbn [firstn]. apply app_nil_r.
+Qed.
+
 Section Http.
   Variable parse_ip : str -> option ipaddr.
   Variable split_host : str -> option str.
 
-  Lemma xff_walk_false r host elems :
-    xff_walk parse_ip r host elems = false ->
-    forall x ip, In x elems -> trim_space x <> host -> parse_ip (trim_space x) = Some ip ->
+  Notation parse_ip_zone := (parse_ip_zone parse_ip).
+
+  Lemma xff_walk_false pip r host elems :
+    xff_walk pip r host elems = false ->
+    forall x ip, In x elems -> trim_space x <> host -> pip (trim_space x) = Some ip ->
                  deny_by_ip r (Some ip) = false.
   Proof.
     induction elems as [|e rest IH]; intros W x ip Hin Hne Hp; [contradiction|].
     cbn [xff_walk] in W.
     destruct (beq (trim_space e) host) eqn:Eh.
     - destruct Hin as [->|Hin]; [apply beq_eq in Eh; contradiction | eauto].
-    - destruct (parse_ip (trim_space e)) as [ipe|] eqn:Ep.
+    - destruct (pip (trim_space e)) as [ipe|] eqn:Ep.
       + destruct (deny_by_ip r (Some ipe)) eqn:Ed; [discriminate|].
         destruct Hin as [->|Hin]; [congruence | eauto].
       + destruct Hin as [->|Hin]; [congruence | eauto].
@@ -76,57 +121,68 @@ Section Http.
   Lemma access_denied_http_false r remote xff :
     access_denied_http parse_ip split_host r remote xff = false ->
     rules_empty r = true \/ split_host remote = None \/
-    exists host, split_host remote = Some host /\ deny_by_ip r (parse_ip host) = false /\
-                 match xff with
-                 | v :: _ => v <> [] -> xff_walk parse_ip r host (split_byte v 44) = false
-                 | [] => True
-                 end.
+    exists host, split_host remote = Some host /\ deny_by_ip r (parse_ip_zone host) = false /\
+                 (join xff [44] <> [] ->
+                  xff_walk parse_ip_zone r host (split_byte (join xff [44]) 44) = false).
   Proof.
     unfold access_denied_http. intros H.
     destruct (rules_empty r); [now left|]. right.
     destruct (split_host remote) as [host|]; [right | now left].
     exists host. split; [reflexivity|].
-    destruct (deny_by_ip r (parse_ip host)); [discriminate|]. split; [reflexivity|].
-    destruct xff as [|v rest]; [exact I|]. intros Hv.
-    destruct v; [congruence | exact H].
+    destruct (deny_by_ip r (parse_ip_zone host)); [discriminate|]. split; [reflexivity|].
+    intros Hv. destruct (join xff [44]); [congruence | exact H].
   Qed.
 
-  (* the peer address is checked ... *)
+  (* the peer address is checked (a zone, if any, is ignored) ... *)
   Theorem peer_checked r remote xff host ip :
     access_denied_http parse_ip split_host r remote xff = false ->
-    split_host remote = Some host -> parse_ip host = Some ip ->
+    split_host remote = Some host -> parse_ip (strip_zone host) = Some ip ->
     deny_by_ip r (Some ip) = false.
   Proof.
     intros H Hs Hp. apply access_denied_http_false in H as [He|[Hn|(h & Hh & Hd & _)]].
     - now apply deny_by_ip_empty.
     - congruence.
-    - rewrite Hs in Hh. inversion Hh; subst h. now rewrite Hp in Hd.
+    - rewrite Hs in Hh. inversion Hh; subst h. unfold Access.parse_ip_zone in Hd. now rewrite Hp in Hd.
   Qed.
 
-  (* ... and so is every element of the (first) X-Forwarded-For value, not only the first
-     or the last one *)
-  Theorem xff_all_checked r remote host v rest :
-    access_denied_http parse_ip split_host r remote (v :: rest) = false ->
-    split_host remote = Some host -> v <> [] ->
-    forall x ip, In x (split_byte v 44) -> parse_ip (trim_space x) = Some ip ->
-                 deny_by_ip r (Some ip) = false.
+  Theorem zone_peer_checked r remote xff a z ip :
+    access_denied_http parse_ip split_host r remote xff = false ->
+    split_host remote = Some (a ++ 37 :: z) -> ~ In 37 a -> parse_ip a = Some ip ->
+    deny_by_ip r (Some ip) = false.
   Proof.
-    intros H Hs Hv x ip Hin Hp.
+    intros H Hs Hn Hp. eapply peer_checked; eauto. now rewrite strip_zone_zone.
+  Qed.
+
+  (* ... and so is every element of EVERY X-Forwarded-For field value, not only the first
+     or the last element, not only the first header line *)
+  Theorem xff_all_checked r remote host xff :
+    access_denied_http parse_ip split_host r remote xff = false ->
+    split_host remote = Some host -> parse_ip [] = None ->
+    forall v x ip, In v xff -> In x (split_byte v 44) -> parse_ip (strip_zone (trim_space x)) = Some ip ->
+                   deny_by_ip r (Some ip) = false.
+  Proof.
+    intros H Hs Hnil v x ip Hv Hin Hp.
+    pose proof (in_split_join xff v x Hv Hin) as Hj.
     apply access_denied_http_false in H as [He|[Hn|(h & Hh & Hd & Hw)]].
     - now apply deny_by_ip_empty.
     - congruence.
-    - rewrite Hs in Hh. inversion Hh; subst h. specialize (Hw Hv).
-      destruct (beq (trim_space x) host) eqn:E.
-      + apply beq_eq in E. rewrite E in Hp. now rewrite Hp in Hd.
-      + apply beq_neq in E. eapply xff_walk_false; eauto.
+    - rewrite Hs in Hh. inversion Hh; subst h.
+      destruct (join xff [44]) as [|c j] eqn:Ej.
+      + cbn in Hj. destruct Hj as [<-|[]]. cbn in Hp. congruence.
+      + assert (Hne : c :: j <> []) by discriminate. specialize (Hw Hne).
+        destruct (beq (trim_space x) host) eqn:E.
+        * apply beq_eq in E. rewrite E in Hp. unfold Access.parse_ip_zone in Hd. now rewrite Hp in Hd.
+        * apply beq_neq in E. eapply xff_walk_false; eauto.
   Qed.
 
-  (* a peer whose host ParseIP cannot read passes every rule (with no XFF header) *)
+  (* what remains fail-open: a peer host that net.ParseIP cannot read even without its zone is
+     admitted as the nil IP.  Not an address, hence outside the property: net/http always
+     supplies an IP literal, and X-Forwarded-For garbage is skipped by design. *)
   Theorem unparsable_peer_admitted r remote host :
-    split_host remote = Some host -> parse_ip host = None ->
+    split_host remote = Some host -> parse_ip (strip_zone host) = None ->
     access_denied_http parse_ip split_host r remote [] = false.
   Proof.
-    intros Hs Hp. unfold access_denied_http. rewrite Hs, Hp.
+    intros Hs Hp. unfold access_denied_http, Access.parse_ip_zone. rewrite Hs, Hp.
     destruct (rules_empty r); reflexivity.
   Qed.
 
@@ -138,23 +194,21 @@ Section Http.
   Definition http_admitted_spec (addr_of : str -> option ipaddr) (r : rules) (host : str) (xff : list str) : Prop :=
     forall s a, In s (request_strings host xff) -> addr_of s = Some a -> deny_by_ip r (Some a) = false.
 
-  (* outside the two regions (a string that is an address but that ParseIP rejects: zone-scoped
-     IPv6; more than one X-Forwarded-For field value) a non-denial means that every address of
-     the request is admitted *)
+  (* A non-denial means that every address of the request is admitted, for any number of
+     header lines and with zones.  The hypothesis left is that the strings of the request
+     mean, as addresses, what net.ParseIP reads once the zone is cut (true of net/netip:
+     tested on every case by the correspondence check). *)
   Theorem http_gate_spec_on_domain addr_of r remote host xff :
-    (forall s, In s (request_strings host xff) -> addr_of s = parse_ip s) ->
-    (List.length xff <= 1)%nat -> parse_ip [] = None ->
+    (forall s, In s (request_strings host xff) -> addr_of s = parse_ip (strip_zone s)) ->
+    parse_ip [] = None ->
     split_host remote = Some host ->
     access_denied_http parse_ip split_host r remote xff = false ->
     http_admitted_spec addr_of r host xff.
   Proof.
-    intros Hag Hlen Hnil Hs H s a Hin Ha. rewrite (Hag s Hin) in Ha.
+    intros Hag Hnil Hs H s a Hin Ha. rewrite (Hag s Hin) in Ha.
     destruct Hin as [<-|Hin]; [eapply peer_checked; eauto|].
-    destruct xff as [|v [|v2 rest]]; [contradiction | | cbn in Hlen; lia].
-    cbn [flat_map] in Hin. rewrite app_nil_r in Hin. apply in_map_iff in Hin as (x & <- & Hx).
-    destruct v as [|c v].
-    - cbn in Hx. destruct Hx as [<-|[]]. cbn in Ha. congruence.
-    - eapply xff_all_checked; eauto. discriminate.
+    apply in_flat_map in Hin as (v & Hv & Hin). apply in_map_iff in Hin as (x & <- & Hx).
+    eapply xff_all_checked; eauto.
   Qed.
 End Http.
 
@@ -231,19 +285,21 @@ Section Gate.
   Qed.
 
   (* end to end, HTTP: a forwarded request on a route with an allow list has its peer and
-     every listed XFF element (first field value) inside a block of the list *)
+     every listed XFF element (every field value) inside a block of the list *)
   Theorem http_upstream_only_if_allowed tg (schemes : scheme_table creds) remote xff c :
     In EUpstream (serve_http parse_ip split_host creds (Some tg) schemes remote xff c) ->
-    r_allow (t_rules tg) <> [] ->
+    r_allow (t_rules tg) <> [] -> parse_ip [] = None ->
     exists host, split_host remote = Some host /\
-      (forall ip, parse_ip host = Some ip -> exists b, In b (r_allow (t_rules tg)) /\ contains b ip = true) /\
-      (forall v rest x ip, xff = v :: rest -> v <> [] -> In x (split_byte v 44) ->
-         parse_ip (trim_space x) = Some ip -> exists b, In b (r_allow (t_rules tg)) /\ contains b ip = true).
+      (forall ip, parse_ip (strip_zone host) = Some ip ->
+                  exists b, In b (r_allow (t_rules tg)) /\ contains b ip = true) /\
+      (forall v x ip, In v xff -> In x (split_byte v 44) ->
+         parse_ip (strip_zone (trim_space x)) = Some ip ->
+         exists b, In b (r_allow (t_rules tg)) /\ contains b ip = true).
   Proof.
-    intros H Ha. apply gate_before_upstream_http in H as (tg' & E & Hd & _ & host & Hs).
+    intros H Ha Hnil. apply gate_before_upstream_http in H as (tg' & E & Hd & _ & host & Hs).
     inversion E; subst tg'. exists host. split; [exact Hs|]. split.
     - intros ip Hp. apply allow_only_inside; [exact Ha|]. eapply peer_checked; eauto.
-    - intros v rest x ip -> Hv Hin Hp. apply allow_only_inside; [exact Ha|].
+    - intros v x ip Hv Hin Hp. apply allow_only_inside; [exact Ha|].
       eapply xff_all_checked; eauto.
   Qed.
 
@@ -288,11 +344,6 @@ Proof. reflexivity. Qed.
 Lemma tag_allow_deny x : beq (kind_str KAllow ++ [58] ++ x) ip_deny_tag = false.
 Proof. reflexivity. Qed.
 
-Lemma split_byte_nonempty s sep : split_byte s sep <> [].
-Proof.
-  induction s as [|x s IH]; cbn [split_byte]; [discriminate|].
-  destruct (x =? sep); [discriminate|]. destruct (split_byte s sep); discriminate.
-Qed.
 
 Section Parse.
   Variable parse_ip : str -> option ipaddr.
@@ -490,7 +541,7 @@ Proof.
   repeat split; try discriminate; vm_compute; reflexivity.
 Qed.
 
-(* "[fe80::1%eth0]:1234" passes allow=ip:10.0.0.0/8: ParseIP rejects the zone, nil is admitted *)
+(* "[fe80::1%eth0]:1234" passed allow=ip:10.0.0.0/8: ParseIP rejects the zone, nil is admitted *)
 Definition ex_split_host (s : str) : option str :=
   if beq s (bs "[fe80::1%eth0]:1234") then Some (bs "fe80::1%eth0")
   else if beq s (bs "1.1.1.1:1") then Some (bs "1.1.1.1") else None.
@@ -502,11 +553,14 @@ Definition ex_allow_10 : rules :=
 Definition ex_deny_6666 : rules :=
   {| r_allow := []; r_deny := [{| n_ip := IP4 101058054; n_ones := 32; n_m16 := false |}] |}.
 
+(* REPAIRED by f5e2970 ("fix: a zone-scoped IPv6 peer passes every access rule"): the
+   statement is about the code before that commit ([access_denied_http_zone_unrepaired],
+   net.ParseIP applied to the unstripped text) ... *)
 Theorem zone_peer_admitted_refuted :
   exists parse_ip split_host addr_of r remote host,
     (forall s a, parse_ip s = Some a -> addr_of s = Some a) /\
     split_host remote = Some host /\
-    access_denied_http parse_ip split_host r remote [] = false /\
+    access_denied_http_zone_unrepaired parse_ip split_host r remote [] = false /\
     ~ http_admitted_spec addr_of r host [].
 Proof.
   exists ex_parse_ip, ex_split_host, ex_addr_of, ex_allow_10, (bs "[fe80::1%eth0]:1234"), (bs "fe80::1%eth0").
@@ -521,12 +575,22 @@ Proof.
     rewrite H in X; [discriminate | now left | vm_compute; reflexivity].
 Qed.
 
-(* two X-Forwarded-For field values: only the first is read; 6.6.6.6 in the second passes deny=ip:6.6.6.6 *)
+(* ... and the same witness is denied by the code as it is now (ParseIP reads "fe80::1") *)
+Definition ex_parse_ip_z (s : str) : option ipaddr :=
+  if beq s (bs "fe80::1") then Some (IP16 fe80_1) else ex_parse_ip s.
+Theorem zone_peer_now_denied :
+  access_denied_http ex_parse_ip_z ex_split_host ex_allow_10 (bs "[fe80::1%eth0]:1234") [] = true /\
+  access_denied_http_zone_unrepaired ex_parse_ip_z ex_split_host ex_allow_10 (bs "[fe80::1%eth0]:1234") [] = false.
+Proof. split; vm_compute; reflexivity. Qed.
+
+(* REPAIRED by 273c6ed ("fix: access rules check only the first X-Forwarded-For header line"):
+   about the code before that commit ([access_denied_http_first_value_unrepaired], Header.Get):
+   two field values, only the first is read; 6.6.6.6 in the second passes deny=ip:6.6.6.6 *)
 Theorem multi_value_xff_refuted :
   exists parse_ip split_host r remote host xff,
     split_host remote = Some host /\
     (forall s, In s (request_strings host xff) -> parse_ip s <> None) /\
-    access_denied_http parse_ip split_host r remote xff = false /\
+    access_denied_http_first_value_unrepaired parse_ip split_host r remote xff = false /\
     ~ http_admitted_spec parse_ip r host xff.
 Proof.
   exists ex_parse_ip, ex_split_host, ex_deny_6666, (bs "1.1.1.1:1"), (bs "1.1.1.1"), [bs "1.1.1.1"; bs "6.6.6.6"].
@@ -537,6 +601,10 @@ Proof.
     assert (X : deny_by_ip ex_deny_6666 (Some (IP16 (mapped 101058054))) = true) by (vm_compute; reflexivity).
     rewrite H in X; [discriminate | right; right; now left | vm_compute; reflexivity].
 Qed.
+
+Theorem multi_value_xff_now_denied :
+  access_denied_http ex_parse_ip ex_split_host ex_deny_6666 (bs "1.1.1.1:1") [bs "1.1.1.1"; bs "6.6.6.6"] = true.
+Proof. vm_compute. reflexivity. Qed.
 
 (* ================= CIDR membership against a bit-level specification ================= *)
 Definition wf_ip (ip : ipaddr) : Prop :=
